@@ -470,6 +470,35 @@ def r20_8(F, R):
     R.floor("R20.8", "assignments to the match length in Search::next", n, 3)
 
 
+def r20_9(F, R):
+    from ..cfg import Defs
+    from .common import producers, same_file_callees
+    M = "texcraft_stdext::algorithms::substringsearch"
+    R.rule("R20.9", "the prefix function is computed, not assumed: every value Matcher::new appends to `prefix_fn` is the automaton state reached after "
+                    "the next pattern element (a value that depends on the comparisons of the loop), never a constant — a table filled with zeros for "
+                    "patterns that merely start and end differently is wrong for every interior border (`aab`, `abac`)")
+    fn = _one(F, M + "::Matcher::new")
+    n = 0
+    for g in [fn] + same_file_callees(F, fn):
+        D = Defs(g)
+        for bi, t in g.calls():
+            cn = strip_generics(callee_name(t) or "")
+            if cn.split("::")[-1] != "push" or len(t.get("args") or []) < 2:
+                continue
+            rp = D.resolve_place(t["args"][0])
+            nm = (g.local_name(rp["l"]) if rp is not None else None) or ""
+            if "prefix" not in nm:
+                continue
+            n += 1
+            pr = producers(g, D, t["args"][1])
+            if all(tag == "const" for tag, name, ty in pr):
+                R.violation("R20.9", "Matcher::new/push#%d" % n, "Matcher::new appends a constant to the prefix function: the entry does not depend on the pattern, "
+                            "so a border inside the pattern is lost and the matcher misses occurrences that follow a failed partial match", g.loc(t))
+            else:
+                R.ok("R20.9", "Matcher::new/push#%d" % n, "the appended value is computed (%s)" % sorted({x[0] for x in pr}), g.loc(t), how="provenance")
+    R.floor("R20.9", "values appended to the prefix function", n, 1)
+
+
 def r20_7(F, R):
     GM = "texcraft_stdext::collections::groupingmap"
     R.rule("R20.7", "replaying the scoped map (iter_all): while IterAll::new walks the groups from the innermost outwards, the value a logged key has "
@@ -509,6 +538,7 @@ def run(F, R, tier):
     r20_5(F, R)
     r20_6(F, R)
     r20_8(F, R)
+    r20_9(F, R)
     r20_4(F, R)
     r20_2(F, R)
     r20_3(F, R)
